@@ -62,6 +62,7 @@ static void print_derived(enum cc_stat s, CC_SList *d) {
     cc_slist_iter_init(&it, d);
     while (k < 4 * OBS_CAP && cc_slist_iter_next(&it, &e) == CC_OK) P("%s%llu", k++ ? " " : "", U(e));
     P("]");
+    P(" own=%zu,%zu", vf_count(TAG_CONF), vf_count(TAG_LIBC));   /* live blocks per family while the derived list exists */
     cc_slist_destroy(d);
 }
 
